@@ -377,4 +377,6 @@ size_t good_count_nonzero(size_t index) { size_t length = 0; for (; index != 0; 
 
 /* OUT6 with counters: the write index overtakes the read index */
 static void bad_OUT6_indexed(char *s) { size_t r = 0; size_t w = 0; while (s[r] != '\0') { s[w] = s[r]; s[w + 1] = ' '; w += 2; r++; } s[w] = '\0'; }
+static void bad_OUT6_memcpy_overlap(char *s) { char *r = s; char *w = s; while (*r == ' ') { r++; } memcpy(w, r, strlen(r) + 1); }
+static void good_memmove_shift(char *s) { char *r = s; char *w = s; while (*r == ' ') { r++; } memmove(w, r, strlen(r) + 1); }
 static void good_indexed(char *s) { size_t r = 0; size_t w = 0; while (s[r] != '\0') { if (s[r] != ' ') { s[w] = s[r]; w++; } r++; } s[w] = '\0'; }
